@@ -4,6 +4,7 @@ mod check;
 mod clientsim;
 mod codecfuzz;
 mod expect;
+mod miri;
 mod fuzz;
 mod monitors;
 mod profiles;
@@ -35,7 +36,14 @@ fn main() {
             let seed: u64 = arg_value(&args, "--seed").or_else(|| std::env::var("VERIF_SEED").ok()).and_then(|s| s.parse().ok()).unwrap_or(20260923);
             let budget: u64 = arg_value(&args, "--budget").and_then(|s| s.parse().ok()).unwrap_or(if tier == "thorough" { 3000 } else { 600 });
             match id.as_str() {
-                "C01" | "C04" | "C05" | "C06" | "C07" | "C08" | "C09" | "C10" | "C11" | "C14" | "C15" | "C17" | "C18" => check::run_engine_check(&id, &tier, seed, budget),
+                "C17" => match check::engine_report("C17", &tier, seed, budget) {
+                    Some(mut rep) => {
+                        if tier == "thorough" || std::env::var("VERIF_MIRI").is_ok() { miri::add_miri(&mut rep, &[("lru", 8)]); }
+                        rep.finish()
+                    }
+                    None => 3,
+                },
+                "C01" | "C04" | "C05" | "C06" | "C07" | "C08" | "C09" | "C10" | "C11" | "C14" | "C15" | "C18" => check::run_engine_check(&id, &tier, seed, budget),
                 "C02" => codecfuzz::run_c02(&tier, seed),
                 "C16" => valfuzz::run_c16(&tier, seed),
                 "C12" => clientsim::run_c12(&tier, seed),
